@@ -169,6 +169,21 @@ RAISEDV == "#-1"
           }
         }
   }
+#! PINNED
+ @@ ("fiber_multi_signal_raise:counter" :> {"mr0"}) @@ ("fiber_multi_signal_raise:head" :> {"mr1"}) @@ ("fiber_multi_signal_raise:next" :> {"mr3"})
+ @@ ("fiber_multi_signal_raise_strict:counter" :> {"mr0"}) @@ ("fiber_multi_signal_raise_strict:head" :> {"mr1"}) @@ ("fiber_multi_signal_raise_strict:next" :> {"mr3"})
+ @@ ("fiber_multi_signal_wait:counter" :> {"mw2"}) @@ ("fiber_multi_signal_wait:head" :> {"mw3"})
+ @@ ("compare_and_swap2" :> {"mr2", "mr4", "mw4", "mw6"})
+#! ACCESS
+mr0 fiber_multi_signal_raise counter
+mr1 fiber_multi_signal_raise head
+mr3 fiber_multi_signal_raise next
+mr2 fiber_multi_signal_raise counter   # (a failed compare_and_swap2 is silent)
+mr4 fiber_multi_signal_raise counter
+mw2 fiber_multi_signal_wait counter
+mw3 fiber_multi_signal_wait head
+mw4 fiber_multi_signal_wait counter
+mw6 fiber_multi_signal_wait counter
 #! OPS
          } else if (op[1] = "sigwait") {
            call sig_wait(op[2]);
@@ -234,6 +249,13 @@ RAISEDV == "#-1"
          THEN MonBad(m, "more raises reported a woken fiber than waits were called (one waiter released twice)")
          ELSE [m EXCEPT !.sgwoken[e.o] = @ + 1]
 #! POST
+\* reachability witnesses (tools/witness.py): a raiser stands at its compare_and_swap2 with a snapshot
+\* whose head is the list head again although the list changed in between - only the counter half of
+\* the double word makes the exchange fail (node-reuse ABA)
+MsAbaGuard == \E af \in ProcSet : pc[af] = "mr4" /\ msh[mrs[af]] = mrh[af] /\ msc[mrs[af]] # mrc[af]
+MsAbaGuardNext == \E af \in ProcSet : pc[af] = "mr4" /\ msh[mrs[af]] = mrh[af] /\ msc[mrs[af]] # mrc[af]
+                                       /\ nnext[NodeF[mrh[af]]] # mrn[af]
+
 \* ---- signals (C11 signal clause, C20 multi-signal clause)
 SignalOK == sgBad = {}
 \* a raise is never lost: once raised (abstractly) and not yet consumed, no fiber is registered as sleeper
